@@ -10,18 +10,25 @@ Local Open Scope Z_scope.
 (* ---- bound encoding ---- *)
 
 (* the byte range the code scans for a RowRange holds exactly the range's keys (open start /
-   closed end are encoded by appending a 0 byte).  partial: guard [closed_end_nonempty] *)
-Theorem C03_encode_range_spec_partial : forall rr k, k <> [] -> closed_end_nonempty rr ->
+   closed end are encoded by appending a 0 byte; an empty end key, open or closed, is "unset").
+   Every rowrange, every non-empty key. *)
+Theorem C03_encode_range_spec : forall rr k, k <> [] ->
   (in_srange (encode_range rr) k <-> in_row_range rr k).
-Proof. exact encode_range_spec_partial. Qed.
-Print Assumptions C03_encode_range_spec_partial.
+Proof. exact encode_range_spec. Qed.
+Print Assumptions C03_encode_range_spec.
 
-(* the full statement is false: end_key_closed = "" passes validation (it counts as unset there)
-   but the scan then selects nothing *)
-Theorem C03_encode_range_closed_empty_end_refuted :
-  exists rr k, k <> [] /\ in_row_range rr k /\ ~ in_srange (encode_range rr) k /\ range_ok rr = true.
-Proof. exact encode_range_closed_empty_end_refuted. Qed.
-Print Assumptions C03_encode_range_closed_empty_end_refuted.
+(* end_key_closed = "" passes validation (it counts as unset there) and the scan agrees: the
+   range is unbounded above, every key that satisfies the start bound is inside *)
+Theorem C03_encode_range_closed_empty_end_unbounded : forall s k, k <> [] ->
+  (in_srange (encode_range (mkRange s (BClosed []))) k <-> in_bound_lo s k).
+Proof. exact encode_range_closed_empty_end_unbounded. Qed.
+Print Assumptions C03_encode_range_closed_empty_end_unbounded.
+
+(* ... in particular every key >= a closed start *)
+Theorem C03_encode_range_closed_empty_end_from_start : forall s k, lex_le s k ->
+  in_srange (encode_range (mkRange (BClosed s) (BClosed []))) k.
+Proof. exact encode_range_closed_empty_end_from_start. Qed.
+Print Assumptions C03_encode_range_closed_empty_end_from_start.
 
 Theorem C03_key_range_spec : forall x k, in_srange (key_range x) k <-> k = x.
 Proof. exact key_range_spec. Qed.
@@ -60,10 +67,10 @@ Proof. exact merge_union. Qed.
 Print Assumptions C03_merge_union.
 
 (* the scanned ranges cover exactly the requested keys; empty RowSet = whole table *)
-Theorem C03_scan_ranges_union_partial : forall keys ranges k, k <> [] -> Forall closed_end_nonempty ranges ->
+Theorem C03_scan_ranges_union : forall keys ranges k, k <> [] ->
   (in_any (scan_ranges keys ranges) k <-> requested keys ranges k).
-Proof. exact scan_ranges_union_partial. Qed.
-Print Assumptions C03_scan_ranges_union_partial.
+Proof. exact scan_ranges_union. Qed.
+Print Assumptions C03_scan_ranges_union.
 
 (* consecutive output ranges: the earlier one is bounded and ends strictly below the next start *)
 Theorem C03_merge_sorted_disjoint : forall l pre a b post,
@@ -92,18 +99,17 @@ Print Assumptions C03_merge_no_overlap.
 
 (* "readrows_exact": no filter, no limit, table in ascending key order without the empty key:
    the result holds exactly the stored rows that are requested and have output, with the
-   scrubbed stored families, in strictly ascending key order, each once.
-   partial: guard [closed_end_nonempty] on the ranges (see the refutation above) *)
-Theorem C03_readrows_exact_partial : forall t keys ranges limit coins,
-  asorted (t_rows t) -> Forall (fun p => fst p <> []) (t_rows t) -> Forall closed_end_nonempty ranges -> limit <= 0 ->
+   scrubbed stored families, in strictly ascending key order, each once.  Every RowSet. *)
+Theorem C03_readrows_exact : forall t keys ranges limit coins,
+  asorted (t_rows t) -> Forall (fun p => fst p <> []) (t_rows t) -> limit <= 0 ->
   let res := scan_all t None limit (scan_ranges keys ranges) 0 coins [] in
   (forall r, In r res <->
      exists fs, In (row_key r, fs) (t_rows t) /\ requested keys ranges (row_key r)
                 /\ row_fams r = scrub_fams (t_fams t) fs /\ row_fams r <> [])
   /\ StronglySorted lex_lt (map row_key res)
   /\ NoDup (map row_key res).
-Proof. exact scan_exact_partial. Qed.
-Print Assumptions C03_readrows_exact_partial.
+Proof. exact scan_exact. Qed.
+Print Assumptions C03_readrows_exact.
 
 (* the same without any guard on ranges or keys, in terms of the scanned byte ranges *)
 Theorem C03_readrows_exact_ranges : forall t keys ranges limit coins, asorted (t_rows t) -> limit <= 0 ->
@@ -173,14 +179,23 @@ Definition C03_keys : list bytes := [[255%N]].
 
 Example C03_hyps_met :
   asorted (t_rows C03_t) /\ Forall (fun p => fst p <> []) (t_rows C03_t)
-  /\ Forall closed_end_nonempty C03_ranges /\ forallb range_ok C03_ranges = true.
+  /\ forallb range_ok C03_ranges = true.
 Proof.
-  split; [|split; [|split]].
+  split; [|split].
   - repeat (constructor; try reflexivity).
-  - repeat (constructor; try discriminate).
   - repeat (constructor; try discriminate).
   - reflexivity.
 Qed.
+
+(* an end closed at the empty key: [ab, ""]  passes validation and reads to the end of the
+   table, like [ab, unset) *)
+Example C03_closed_empty_end_example :
+  range_ok (mkRange (BClosed [97; 98]%N) (BClosed [])) = true
+  /\ map row_key (scan_all C03_t None 0 (scan_ranges [] [mkRange (BClosed [97; 98]%N) (BClosed [])]) 0 [] [])
+     = [[97; 98]; [98]; [255]]%N
+  /\ scan_ranges [] [mkRange (BClosed [97; 98]%N) (BClosed [])] = scan_ranges [] [mkRange (BClosed [97; 98]%N) BUnset]
+  /\ length (scan_all C03_t None 0 (scan_ranges [] [mkRange BUnset (BClosed [])]) 0 [] []) = 7%nat.
+Proof. vm_compute. repeat split. Qed.
 
 Example C03_scan_example :
   map row_key (scan_all C03_t None 0 (scan_ranges C03_keys C03_ranges) 0 [] [])
